@@ -236,7 +236,8 @@ struct InclEngine : Engine {
 					else if (k == 4 && use_odd) {
 						// the empty marker; names that merely START like the TOC placeholder (only the literal {{TOC}} is one); a name with blanks around it
 						unsigned ok = (unsigned)w.below(5);
-						t += ok == 0 ? "{{}}" : ok == 1 ? "{{TOC:2-3}}" : ok == 2 ? "{{TOC.txt}}" : ok == 3 ? "{{TOCnotes.txt}}" : "{{ " + rel(basedir, target) + " }}";
+						if (w.chance(1, 4)) t += w.chance(1, 2) ? "{{sub}}" : "{{x.*.txt}}";      // a marker that names a directory (when /sim/w/sub exists); `.*` that is not at the end
+						else t += ok == 0 ? "{{}}" : ok == 1 ? "{{TOC:2-3}}" : ok == 2 ? "{{TOC.txt}}" : ok == 3 ? "{{TOCnotes.txt}}" : "{{ " + rel(basedir, target) + " }}";
 					}
 					else if (k == 5 && use_odd && !dag) t += "{{ {{" + rel(basedir, target) + "}} }}";
 					else if (k == 6 && !dag) t += "{{" + rel(basedir, paths[(size_t)i]) + "}}";            // self
@@ -315,7 +316,7 @@ struct InclEngine : Engine {
 				if (w.chance(1, 3)) o["rel"] = true;      // file arguments spelled relative to the working directory (/sim/w): a.txt, sub/b.txt, ../x/c.txt
 			} else if (k < 6) {
 				o["k"] = "TRANSCLUDE"; o["fmt"] = i == 0 ? fmt : (w.chance(1, 2) ? fmt : w.chance(1, 3) ? (int)w.below(13) : gen_text_format(w));
-				o["search"] = w.chance(1, 6) ? "/sim/w/" : "/sim/w";
+				o["search"] = w.chance(1, 6) ? "/sim/w/" : w.chance(1, 6) ? "." : "/sim/w";      // "." is what the command line tool passes for a bare file name (the working directory is /sim/w)
 				o["src"] = top;
 				o["hold_stack"] = w.chance(1, 3);       // pass a caller-owned `parsed` stack instead of NULL
 			} else {
